@@ -5,7 +5,7 @@ NOT_APPLICABLE = {
            "threads or multiprocessing symbolically, and a sequential stub would decide one schedule only (DESIGN §4 C13)",
 }
 ENGINES = [
-    {"name": "pysym", "path": "vf/pysym", "serves_properties": ["C17", "C07", "C06", "C09", "C10", "C12", "C04", "C18"],
+    {"name": "pysym", "path": "vf/pysym", "serves_properties": ["C17", "C07", "C06", "C09", "C10", "C12", "C04", "C18", "C08", "C15"],
      "kind_free_text": "bounded path-forking symbolic interpreter over the AST of the real py7zr sources (re-parsed "
                        "from /repo on every run), z3 bit-vectors / integers / ropes; solver verdict per path"},
 ]
@@ -18,7 +18,30 @@ RD_NOTE = ("codec libraries replaced by a decoder contract stub (next r bytes of
            "= identity of the byte range; NUMBER token summary (lemma L0, C17); reference writer/reader pair in /verif is the "
            "oracle; archive shapes (entry kinds, folder partition, layout options) are an enumerated bound, all sizes, CRCs, "
            "timestamps, pack sizes symbolic")
+WR_NOTE = ("codec libraries replaced by a contract stub (consumes the source, writes an arbitrary number of packed bytes, "
+           "accounts packsize/unpacksizes as the interface promises); NUMBER token summary (lemma L0, C17); CRC32 collision-free "
+           "abstraction; the independent reference reader/writer in /verif is the oracle; session shapes are an enumerated bound, "
+           "all sizes/CRCs/timestamps symbolic; payload bytes and real codecs are outside")
 CHECKS = {
+    "C08": dict(engine=B, ref="DESIGN.md §4 C08",
+                technique="bounded symbolic execution of the real reader on a reference-written base header followed by the real "
+                          "append path (_prepare_append, Header.initialize, _writef/write, flush_archive, Header.write) from the "
+                          "AST; result parsed by the independent reference reader; z3 decides",
+                text="For every base layout of the shape set (incl. implicit substream sizes, folder-level CRCs, PackPos>0, partial "
+                     "attribute vectors, no packed streams) and append sessions adding 0-2 (3 thorough) members: every old member "
+                     "keeps name, kind, size, CRC, times, attributes, folder and offset; new members follow in order in a new "
+                     "folder; old packed streams keep offset and size; the session writes nothing inside the old packed area and "
+                     "starts exactly behind it; the new signature header describes the new header.",
+                note=WR_NOTE + "; encoded-header bases and writeall walks are outside"),
+    "C15": dict(engine=B, ref="DESIGN.md §4 C15",
+                technique="bounded symbolic execution of the real write/writestr/writef/close paths from the AST with a fault "
+                          "injected at each point (argument rejected, lstat/open raises, source read raises before/after "
+                          "consumption); closed archive parsed by the reference reader; z3 decides",
+                text="With 0-1 (2) earlier and 0-1 (2) later successful calls around one faulty call: the exception reaches the "
+                     "caller (ValueError for rejected names/types), later calls and close() are unaffected (the failed source is "
+                     "not retried), and for faults before any byte was consumed the closed archive lists exactly the successful "
+                     "members with their sizes and CRCs.",
+                note=WR_NOTE + "; content after a midway source failure is left to the CRC checks (C04); faults inside codecs outside"),
     "C18": dict(engine=B, ref="DESIGN.md §4 C18",
                 technique="bounded symbolic execution of the real _extract/Worker.extract/_extract_single/decompress/reporter/close "
                           "from the AST with a recording queue, a symbolic non-decreasing clock and symbolic decoder chunking",
